@@ -220,6 +220,7 @@ def run(prog, chk):
                         chk.bad("C01.f", f, "descent-direction:" + side, f.where(s.node),
                                 "the descent moves to `%s->%s` under %s; keys greater than a node belong to its right subtree, smaller ones to its left "
                                 "(in-order iteration and find() stop agreeing)" % (node, side, [x for x in facts if "key" in x[0]]))
+    subtree_start(prog, chk)
     C.parent_pairing(prog, chk, "C01.h", TREE)
     from .. import containers
     containers.link_idiom(prog, chk, "C01.d1", TREE)
@@ -228,6 +229,67 @@ def run(prog, chk):
     containers.iterator_param_alias(prog, chk, "C01.d4", TREE)
     from . import c01_hint
     c01_hint.run(prog, chk)
+
+
+def subtree_start(prog, chk):
+    """C01.i — who may start the cell-based descent below the root"""
+    chk.rule("C01.i", "WHO/DOM: the private cell-based insert(cell, parent, key, value) is started at `&root, 0`; a start at "
+                      "`&N->left, N` / `&N->right, N` is accepted only in the hinted insert, whose every ordering C01.e enumerates, "
+                      "or when comparisons against N and its list neighbour dominate the call (key range of the cell established)", floor=6)
+    for cls in TREE:
+        for tn, fs in sorted(C.class_insts(prog, cls).items()):
+            multi = cls == "MultiMap"
+            for f in [f for f in fs if f.cls == tn]:
+                defs = q.local_defs(f)
+                for c in q.calls(f):
+                    n = f.nodes[c]
+                    g = prog.functions.get(n.get("csig"))
+                    if g is None or g.short != "insert" or len(g.params) != 4 or not g.params[0]["t"].endswith("Item **"):
+                        continue
+                    args = q.call_args(f, c)
+                    cell = q.no_casts(q.xr(f, args[0], defs))
+                    par = q.no_casts(q.xr(f, args[1], defs))
+                    key = q.no_casts(f.r(args[2]))
+                    if cell == "&this->root":
+                        if q.is_zero(f, args[1]):
+                            chk.ok("C01.i", f, "descent from the root", f.where(c), "insert(&root, 0, ...)", nontrivial=False)
+                        else:
+                            chk.bad("C01.i", f, "root-start-with-parent", f.where(c), "a descent from `&root` must pass a null parent, got `%s`" % par)
+                        continue
+                    m = re.match(r"^&(.+)->(left|right)$", cell)
+                    if not m or m.group(1) != par:
+                        chk.bad("C01.i", f, "cell-parent-mismatch", f.where(c),
+                                "the descent starts at `%s` with parent `%s`: the cell must be a child link of that parent" % (cell, par))
+                        continue
+                    if f.short == "insert" and len(f.params) == 3 and f.params[0]["t"].endswith("Iterator &"):
+                        chk.ok("C01.i", f, "subtree start in the hinted insert", f.where(c), "decided by C01.e (exhaustive ordering enumeration)", nontrivial=False)
+                        continue
+                    N, side = m.group(1), m.group(2)
+                    facts = set()
+                    for a in fin.dominating_atoms(f, f.node_pos(c)):
+                        if a[0] != "case":
+                            facts.add((q.no_casts(q.xr(f, a[0], defs)), a[1]))
+                    def has(*alts):
+                        return any(x in facts for x in alts)
+                    nk = "%s->key" % N
+                    if side == "right":
+                        near = has(("(%s > %s)" % (key, nk), True), ("(%s < %s)" % (nk, key), True)) or \
+                            (multi and has(("(%s < %s)" % (key, nk), False), ("(%s >= %s)" % (key, nk), True)))
+                        nb = "%s->next" % N
+                        far = has(("(%s == &this->endItem)" % nb, True), ("(%s < %s->key)" % (key, nb), True), ("(%s->key > %s)" % (nb, key), True))
+                    else:
+                        near = has(("(%s < %s)" % (key, nk), True), ("(%s > %s)" % (nk, key), True))
+                        nb = "%s->prev" % N
+                        far = has(("%s" % nb, False), ("(!%s)" % nb, True), ("(%s > %s->key)" % (key, nb), True), ("(%s->key < %s)" % (nb, key), True))
+                    if near and far:
+                        chk.ok("C01.i", f, "subtree start under established key range", f.where(c), "dominating comparisons against %s and %s" % (N, nb), evals=len(facts))
+                    else:
+                        chk.bad("C01.i", f, "subtree-start-without-key-range:" + side, f.where(c),
+                                "the descent for `%s` starts at `%s` without dominating comparisons that place the key between `%s` and its list %s "
+                                "(%s; %s): a key that belongs elsewhere in the tree is hung below `%s`, so iteration is no longer ascending and find() misses entries"
+                                % (key, cell, N, "successor" if side == "right" else "predecessor",
+                                   "comparison with %s: %s" % (nk, "found" if near else "missing"),
+                                   "comparison with %s: %s" % (nb, "found" if far else "missing"), N), evals=max(1, len(facts)))
 
 
 def run_thorough(prog, chk):
